@@ -847,14 +847,28 @@ class HexaryTrie:
         scratch_db = ScratchDB(self.db)
         with scratch_db.batch_commit(do_deletes=self.is_pruning):
             Trie = type(self)
+            if self.is_pruning:
+                # The batch counts references on its own copy, which is adopted
+                # below only if the block exits cleanly. An aborted batch drops
+                # its buffered database changes, so it must drop its changes to
+                # the reference counts too.
+                batch_ref_count = self._ref_count.copy()
+            else:
+                batch_ref_count = None
             memory_trie = Trie(
-                scratch_db, self.root_hash, prune=True, ref_count=self._ref_count
+                scratch_db, self.root_hash, prune=True, ref_count=batch_ref_count
             )
             yield memory_trie
 
+        if self.is_pruning:
+            # Clean exit: adopt the batch's counts (in place, the dict may have
+            # been handed in by the caller)
+            self._ref_count.clear()
+            self._ref_count.update(memory_trie._ref_count)
+
         if self.root_hash != memory_trie.root_hash and self.is_pruning:
             # The batch has already stored the new root node and counted the
-            # reference to it in the reference counts it shares with this trie.
+            # reference to it in the reference counts adopted above.
             # Saving the node again would count that one reference twice, and
             # the node could then never be pruned.
             self.root_hash = memory_trie.root_hash
